@@ -159,9 +159,9 @@ func extPrograms(thorough bool) []*c14Prog {
 	if thorough {
 		pairs = append(pairs, [2]string{"ext2", "a"}, [2]string{"s", "a"})
 	}
-	second := []int{0, 2} // func, struct
+	second := []int{0, 1, 2, 5} // func, value, struct, ifacevalue
 	if thorough {
-		second = []int{0, 2, 3, 4, 6, 7} // func, struct, bind, fieldsof, result, local-struct
+		second = []int{0, 1, 2, 3, 4, 5, 6, 7} // + bind, fieldsof, result, local-struct
 	}
 	type spelling struct {
 		layout string // same-file | two-files | three-files
@@ -583,6 +583,20 @@ func runC14Prog(we *wireEnv, p *c14Prog, i int) {
 			p.add("nondeterministic-output", "valid-input", fmt.Sprintf("run 1 (GOMAXPROCS=1) and run %d (GOMAXPROCS=%s) wrote different files", k+1, procs[k]), map[string]any{"other_output": string(b)})
 		}
 	}
+	// history: a previous, LONGER output of an earlier migration is still at the output path (the configuration
+	// shrank since): the new run must replace it completely
+	// (only for inputs without set variables: a previous output that declares sets is, together with the wire
+	// files, a package that does not type-check, and migrate refuses it - the failure branch above)
+	prevLong := append(append([]byte(nil), b0...), []byte("\n// trailing declarations of an earlier, longer migration result\n// "+strings.Repeat("x", 400)+"\n")...)
+	if len(p.expectedSets()) > 0 {
+		// nothing to do
+	} else if mustOK(os.WriteFile(outPath, prevLong, 0o644)); false {
+	} else if bl, ok := run(0); p.exit[0] != 0 || !ok {
+		p.add("exit-status-differs-between-runs", "valid-input", fmt.Sprintf("with a previous (longer) output file in place the run exited %d (file present: %v)", p.exit[0], ok), nil)
+		p.exit[0] = 0
+	} else if sumOf(bl) != p.sums[0] {
+		p.add("history-dependent-output", "previous-longer-output", fmt.Sprintf("a previous output file that is longer than the new result is not replaced completely: %d bytes written over %d, result %d bytes", len(b0), len(prevLong), len(bl)), map[string]any{"other_output": string(bl)})
+	}
 	// gofmt
 	if f, err := format.Source(b0); err != nil {
 		p.add("output-does-not-parse", "go/format", err.Error(), nil)
@@ -757,7 +771,7 @@ func runC14(args []string) {
 	rc.Coverage = map[string]any{
 		"evaluations":                      len(progs),
 		"distinct_nontrivial":              len(distinct),
-		"rule":                             "L: C13's universe without the unused-argument / declared-only-error variants, without n=4 and without the flat n=3 configurations outside the reduced alphabet, i.e. " + rule + " X: ordered pairs of external packages {two packages named config, the same package twice, a package whose name differs from its directory, a package named s (the receiver name of generated FieldsOf accessors), a plain one} x use of the first {provider func, Value, Struct, Bind+ctor, FieldsOf, InterfaceValue, injector result type, field of a local struct, struct with a field named like the package, FieldsOf over a local struct next to it, injector parameter only} x use of the second {func, Struct} (thorough: + Bind, FieldsOf, injector result, field of a local struct) x layout/spelling {same file: unaliased+alias, two aliases, both unaliased; two files: both unaliased, same alias for both, distinct aliases, one aliased; three files (the third uses a third package named config, or the plain one): unaliased} (thorough: + three files under one alias); plus layout same-set: both uses as elements of ONE wire.NewSet, second use in {func, Struct, FieldsOf, Bind} (thorough: + Value, InterfaceValue, struct with a field named like the package). Map order: the CLI rebuilt with every range-over-map of internal/migrate routed through a seam; for every successful X / M program every permutation of every reached site visit must reproduce the canonical output. M/I: valid local packages with 1..3 wire files and, planted at every file (providers.go included) or pattern position: syntax error (2 shapes), type error (3 shapes), different package clause, two packages in one invocation (different names / one name / one name + same set name), set redeclared in another file, wire.Bind without New<T> (in a set / in wire.Build). Every program: 3 CLI runs on success (GOMAXPROCS 1/4/16, output removed in between), 2 on failure (without / with a previous output file of known content and old mtime). distinct = distinct migrated texts modulo digits",
+		"rule":                             "L: C13's universe without the unused-argument / declared-only-error variants, without n=4 and without the flat n=3 configurations outside the reduced alphabet, i.e. " + rule + " X: ordered pairs of external packages {two packages named config, the same package twice, a package whose name differs from its directory, a package named s (the receiver name of generated FieldsOf accessors), a plain one} x use of the first {provider func, Value, Struct, Bind+ctor, FieldsOf, InterfaceValue, injector result type, field of a local struct, struct with a field named like the package, FieldsOf over a local struct next to it, injector parameter only} x use of the second {func, Value, Struct, InterfaceValue} (thorough: + Bind, FieldsOf, injector result, field of a local struct) x layout/spelling {same file: unaliased+alias, two aliases, both unaliased; two files: both unaliased, same alias for both, distinct aliases, one aliased; three files (the third uses a third package named config, or the plain one): unaliased} (thorough: + three files under one alias); plus layout same-set: both uses as elements of ONE wire.NewSet, second use in {func, Struct, FieldsOf, Bind} (thorough: + Value, InterfaceValue, struct with a field named like the package). Map order: the CLI rebuilt with every range-over-map of internal/migrate routed through a seam; for every successful X / M program every permutation of every reached site visit must reproduce the canonical output. M/I: valid local packages with 1..3 wire files and, planted at every file (providers.go included) or pattern position: syntax error (2 shapes), type error (3 shapes), different package clause, two packages in one invocation (different names / one name / one name + same set name), set redeclared in another file, wire.Bind without New<T> (in a set / in wire.Build). Every program: 3 CLI runs on success (GOMAXPROCS 1/4/16, output removed in between) plus one run over a previous, longer output file, 2 on failure (without / with a previous output file of known content and old mtime). distinct = distinct migrated texts modulo digits",
 		"samples":                          samples,
 		"exhaustive":                       exhaustive,
 		"programs_by_family":               fam,
